@@ -243,6 +243,15 @@ def showVar : Var → String
   | .x n => s!"x{n}"
   | .t n => s!"t{n}"
 
+/-- the variant a `SetDiscriminant` names, from the blank value the model carries -/
+def variantName : Val → String
+  | .opt (some _) => "Some"
+  | .opt none => "None"
+  | .verdict true _ => "Accept"
+  | .verdict false _ => "Reject"
+  | .enm k _ => (["A", "B", "C"][k]?).getD s!"V{k}"
+  | _ => "?"
+
 def opName : BinOp → String
   | .add => "Add" | .sub => "Sub" | .mul => "Mul" | .eq => "Eq" | .ne => "Ne"
   | .lt => "Lt" | .le => "Le" | .gt => "Gt" | .ge => "Ge"
@@ -265,11 +274,15 @@ def showValue : Value → String
   | .not x => "not " ++ showVar x
   | .neg x => "neg " ++ showVar x
   | .callRt f args => s!"callrt {hostName f} " ++ " ".intercalate (args.map showVar)
+  | .disc x => "disc " ++ showVar x
+  | .cloneProj x i => s!"clone {showVar x}.Some#{i}"      -- only `e?` reads a variant field so far
 
 /-- CFG under construction: finished/open blocks (instructions reversed) and the current block. -/
 structure Cfg where
   blocks : Array (List String) := #[[]]
   cur : Nat := 0
+  /-- the variant each enum temporary was last set to (names the projection of a field assignment) -/
+  variants : List (String × String) := []
 
 namespace Cfg
 def push (g : Cfg) (i : String) : Cfg := { g with blocks := g.blocks.modify g.cur (i :: ·) }
@@ -282,6 +295,23 @@ mutual
 partial def emitStm (g : Cfg) : Stm → Cfg
   | .assign x v => g.push s!"a {showVar x} = {showValue v}"
   | .ret x => g.push s!"r {showVar x}"
+  | .setDisc x blank =>
+    let g := { g with variants := (showVar x, variantName blank) :: g.variants }
+    g.push s!"d {showVar x} {variantName blank}"
+  | .assignField x i v =>
+    let vn := ((g.variants.find? (·.1 == showVar x)).map (·.2)).getD "?"
+    g.push s!"a {showVar x}.{vn}#{i} = {showValue v}"
+  | .iteD x k thn els =>
+    -- `switch x [k => then] else default`; an empty branch is the continuation itself
+    let (g, lthen) := if thn.isEmpty then (g, 0) else g.newBlock
+    let (g, lelse) := if els.isEmpty then (g, 0) else g.newBlock
+    let (g, lcont) := g.newBlock
+    let tthen := if thn.isEmpty then lcont else lthen
+    let telse := if els.isEmpty then lcont else lelse
+    let g := g.push s!"s {showVar x} {k} {tthen} {telse}"
+    let g := if thn.isEmpty then g else (emitCode (g.goto lthen) thn).push s!"j {lcont}"
+    let g := if els.isEmpty then g else (emitCode (g.goto lelse) els).push s!"j {lcont}"
+    g.goto lcont
   | .ite x k thn els =>
     let kn := if k then 1 else 0
     let (g, lthen) := g.newBlock
